@@ -1,4 +1,4 @@
-\* quick exhaustive: area 4, K=2, 2 callers, 2 heights, raw and cascade wiring, 3 calls, 2 environment actions (cancel/flush/restart/crash)
+\* thorough: K=2, 4 calls
 SPECIFICATION Spec
 CONSTANTS
   Coords = {c0, c1, c2, c3}
@@ -12,7 +12,7 @@ CONSTANTS
   CascadeModes = {FALSE, TRUE}
   PersistOnEmpty = TRUE
   CrashForgiven = TRUE
-  MaxCalls = 3
+  MaxCalls = 4
   MaxEnv = 2
   RecordHist = FALSE
 SYMMETRY Sym
